@@ -35,26 +35,17 @@ template<class V, std::size_t... I> int read_call(V&& v, idx const* t, std::inde
 enum AForm { A_ARRAY, A_VIEW, A_SHORT, A_ELEMENTS, A_ELEMENTS_OTHER, NAFORMS };
 static char const* const aform_name[] = {"view = array", "view = view", "view = array<short>", "view.elements() = other.elements()", "view.elements() = array<short>.elements()"};
 
-template<int D, class Root>
-static void run_root(Root& root, int const* data, idx N, std::vector<idx> const& sizes, std::string const& rootname, std::string const& prefix, Config const& cfg, std::set<std::string> const& skip) {
-	MView m0 = root_model(sizes);
-	long nontrivial = 0;
-	auto st = bfs(root, m0, cfg, skip, [&](auto&& v, MView const& m, Hist const& h) -> bool {
-		if(vo::check_view(v, m, data, N).bad) { return false; }
-		if(m.has_empty_dim()) { return true; }   // index bases of empty dimensions are unobservable
+template<class V, class Report>
+void probe_state(V&& v, MView const& m, std::string const& trace, Report&& report) {
 		constexpr int R = rank_of<decltype(v)>;
 		constexpr auto SEQ = std::make_index_sequence<static_cast<std::size_t>(R)>{};
-		++nontrivial;
-		auto report = [&](std::string const& what, std::string const& sub, Death const& d, std::string const& probe) {
-			mc::R.violation("D" + std::to_string(R) + "|" + what + "|" + sub + "|" + d.cls, mc::J().s("harness", "deathmc").s("replay", prefix + hist_str(h)).s("root", rootname).s("trace", hist_str(h)).s("probe", probe).s("outcome", d.cls).s("detail", d.detail).str());
-		};
 		// (1) out-of-range indexing
 		for(int k = 0; k < R; ++k) {
 			for(int side = 0; side < 2; ++side) {
 				std::vector<idx> t(static_cast<std::size_t>(R)); for(int j = 0; j < R; ++j) { t[static_cast<std::size_t>(j)] = m.d[static_cast<std::size_t>(j)].first; }
 				auto u = static_cast<std::size_t>(k); t[u] = side == 0 ? m.d[u].first - 1 : m.d[u].first + m.d[u].size;
 				std::string probe = "index " + tup_str(t) + " (dimension " + std::to_string(k) + (side ? ": last" : ": first-1") + ")";
-				mc::cur_set("index-out-of-range", prefix + hist_str(h)); mc::cur_phase(probe.c_str());
+				mc::cur_set("index-out-of-range", trace); mc::cur_phase(probe.c_str());
 				{ ++g_probes; Death d = expect_death([&] { volatile int x = read_brackets(v, t.data()); (void)x; }); if(d.cls == "assertion") { ++g_good; } else { report("index-out-of-range", std::string("brackets|dim") + (k == 0 ? "0" : k == R - 1 ? "last" : "middle"), d, probe); } }
 				{ ++g_probes; Death d = expect_death([&] { volatile int x = read_call(v, t.data(), SEQ); (void)x; }); if(d.cls == "assertion") { ++g_good; } else { report("index-out-of-range", std::string("call|dim") + (k == 0 ? "0" : k == R - 1 ? "last" : "middle"), d, probe); } }
 			}
@@ -75,7 +66,7 @@ static void run_root(Root& root, int const* data, idx N, std::vector<idx> const&
 					// elements() is a FLAT range: assigning flat ranges of equal length is valid whatever the extents; only a different element count is invalid there
 					if((f == A_ELEMENTS || f == A_ELEMENTS_OTHER) && sn.find("permuted") != std::string::npos) { continue; }
 					std::string probe = std::string(aform_name[f]) + " with source extents {" + vr_sizes(se) + "} into extents {" + vr_sizes(ext) + "}";
-					mc::cur_set("assign-different-extents", prefix + hist_str(h)); mc::cur_phase(probe.c_str());
+					mc::cur_set("assign-different-extents", trace); mc::cur_phase(probe.c_str());
 					++g_probes;
 					Death d = expect_death([&] {
 						multi::array<int, R> w(vo::make_extensions<R>(se), 5); multi::array<short, R> ws(vo::make_extensions<R>(se), static_cast<short>(5));
@@ -92,6 +83,21 @@ static void run_root(Root& root, int const* data, idx N, std::vector<idx> const&
 				}
 			}
 		}
+}
+
+template<int D, class Root>
+static void run_root(Root& root, int const* data, idx N, std::vector<idx> const& sizes, std::string const& rootname, std::string const& prefix, Config const& cfg, std::set<std::string> const& skip) {
+	MView m0 = root_model(sizes);
+	long nontrivial = 0;
+	auto st = bfs(root, m0, cfg, skip, [&](auto&& v, MView const& m, Hist const& h) -> bool {
+		if(vo::check_view(v, m, data, N).bad) { return false; }
+		if(m.has_empty_dim()) { return true; }   // index bases of empty dimensions are unobservable
+		probe_state(v, m, prefix + hist_str(h), [&](std::string const& what, std::string const& sub, Death const& d, std::string const& probe) {
+			constexpr int R = rank_of<decltype(v)>;
+			mc::R.violation("D" + std::to_string(R) + "|" + what + "|" + sub + "|" + d.cls, mc::J().s("harness", "deathmc").s("replay", prefix + hist_str(h)).s("root", rootname).s("trace", hist_str(h)).s("probe", probe).s("outcome", d.cls).s("detail", d.detail).str());
+		});
+		++nontrivial;
+		constexpr int R = rank_of<decltype(v)>;
 		if(mc::R.samples.size() < 3 && h.size() == 1 && R >= 2) { mc::R.sample(mc::J().s("root", rootname).s("trace", hist_str(h)).s("model_state", key_of(m)).s("probes", "2*D out-of-range indices x {brackets, call} + mismatched-extent sources x 5 assignment forms").str()); }
 		return true;
 	}, prefix);
@@ -117,6 +123,12 @@ int main(int argc, char** argv) {
 		static std::set<std::vector<idx>> const quick = {{4}, {2, 3}, {3, 2}, {2, 3, 2}, {2, 1, 2, 3}};
 		return thorough ? N <= 16 : quick.count(sh.s) != 0;
 	};
-	int rc = vr::main_roots(args, cfg, thorough, [](std::vector<idx> const&, bool, Hist const&) { std::printf("REPLAY: run the check with --depth and inspect the probe named in the record\n"); return 2; });
+	int rc = vr::main_roots(args, cfg, thorough, [](std::vector<idx> const& sizes, bool owning, Hist const& h) { return vr::replay_generic(sizes, owning, h, [&](auto&& v, MView const& m, int const*, idx) {
+		int bad = 0;
+		if(m.has_empty_dim()) { std::printf("REPLAY: empty view, nothing is probed\n"); return 0; }
+		probe_state(v, m, "replay", [&](std::string const& what, std::string const& sub, Death const& d, std::string const& probe) { ++bad; std::printf("REPLAY VIOLATION %s|%s -> %s : %s %s\n", what.c_str(), sub.c_str(), d.cls.c_str(), probe.c_str(), d.detail.c_str()); });
+		if(!bad) { std::printf("REPLAY OK (every invalid use at this state died by a library assertion)\n"); }
+		return bad ? 1 : 0;
+	}); });
 	return rc;
 }
